@@ -48,8 +48,10 @@ ELEMS = ['el_gen_move', 'el_gen_dtor', 'el_cb_ctor', 'el_cb_dtor']
 D_GLOBALS = {'FRAME_KIND': 'g_frame_kind', 'G_OBS': 'g_obs', 'G_NOBS': 'g_nobs', 'G_END': 'g_end', 'G_EXC_N': 'g_exc_n', 'G_EXC_AT': 'g_exc_at', 'G_EXC_VAL': 'g_exc_val',
              'G_NMV': 'g_nmv', 'G_OTHER_EXC': 'g_other_exc', 'G_CTOR': 'g_ctor', 'G_DTOR': 'g_dtor', 'G_ARG_SRC': 'g_arg_src', 'G_ARG_VAL': 'g_arg_val', 'G_NARGS': 'g_nargs',
              'G_XEXC_VAL': 'g_xexc_val', 'G_XEXC_AT': 'g_xexc_at', 'G_FIN_DONE': 'g_fin_done', 'G_FIN_BOOL': 'g_fin_bool', 'G_PRE_VAL': 'g_pre_val', 'G_PRE_OK': 'g_pre_ok', 'G_AGAIN': 'g_again'}
-D_LIBS = ['rt_core.c', 'rt_atomic_seq.c', 'model_atomic_ptr_api.c', 'model_dq_drive.c', 'model_heap_frames.c', 'model_mutex.c', 'model_vec_pool.c', 'model_ptrq_ring.c']
+D_LIBS = ['rt_core.c', 'rt_atomic_seq.c', 'model_atomic_ptr_api.c', 'model_dq_drive.c', 'model_heap_frames_src.c', 'model_mutex.c', 'model_vec_pool.c', 'model_ptrq_ring.c']
 AGG_FRAME = {'void': 'S__ZN5cocls20generator_aggregatorIivEENS_9generatorIT_T0_EESt6vectorIS4_SaIS4_EE_Frame', 'int': 'S__ZN5cocls20generator_aggregatorIiiEENS_9generatorIT_T0_EESt6vectorIS4_SaIS4_EE_Frame'}
+# frame kinds 1..3 (src_vals, src_throw, src_arg) are SOURCE coroutines: lib/model_heap_frames_src.c counts their frames for the ORDER obligations
+SRC_KINDS = 'CV_FRAME_IS_SOURCE(K) ((K) >= 1 && (K) <= 3)'
 def drive(name, kind, what, arg='void', defines=(), unwind=10, timeout=600, **kw):
     G, CB, N = VAR[arg]
     root = 'drive_aggr_arg' if arg == 'int' else ('drive_aggr_t' if kind == 'aggr_t' else 'drive_aggr')
@@ -59,7 +61,7 @@ def drive(name, kind, what, arg='void', defines=(), unwind=10, timeout=600, **kw
              ptypes={'VGEN': N['vg_ctor'] + '#0', 'VCB': N['vc_ctor'] + '#0', 'SQ': N['pq_ctor'] + '#0', 'GCB': N['el_cb_dtor'] + '#0', 'AQ': N['el_cb_ctor'] + '#1', 'GEN': N['el_gen_dtor'] + '#0',
                      'ATOM_FG': N['ap_fg_xchg'] + '#0', 'FUTG': N['ap_fg_xchg'] + '#1', 'SIQ': N['si_empty'] + '#0', 'PROMG': N['si_emplace'] + '#1'},
              globals=D_GLOBALS, boundary=[r'^std::deque<std::__n4861::coroutine_handle<void>'] + [N[m] for m in MODELS], lib=D_LIBS, spec=['C14/drive_models.h', 'C14/h_drive.c'], harness='h_drive',
-             defines=['CV_NO_HEAP_PRIMS 1', frames, 'DRIVE_%s 1' % kind] + list(defines), unwind=unwind, object_bits=12, kind='bounded', timeout=timeout, bounded=what, under_contract=[])
+             defines=['CV_NO_HEAP_PRIMS 1', frames, SRC_KINDS, 'DRIVE_%s 1' % kind] + list(defines), unwind=unwind, object_bits=12, kind='bounded', timeout=timeout, bounded=what, under_contract=[])
     d.update(kw)
     return d
 def sh(n, style=0, stop=-1, src=()):
@@ -99,8 +101,8 @@ UNITS = [
     drive('throw2_b', 'aggr_t', 'TWO throwing sources next to a regular one: (t1,t2,2) (2,t0,t1); THREE throwing sources (t1,t0,t1); next()/value()', defines=[shapes(sht(3, src=['t1', 't2', 2]), sht(3, src=[2, 't0', 't1']), sht(3, src=['t1', 't0', 't1'])), 'AGG_NO_AFTER_CLAUSE 1'], unwind=12, replay=RP_TWO),
     drive('prestep', 'aggr_t', 'source 0 already stepped once by the consumer before it is handed to the aggregator: (2) (2,2) (1,2) (1,0) by next()/value(), (2,1) by call-to-future',
           defines=[shapes(sht(1, pre=1, src=[2]), sht(2, pre=1, src=[2, 2]), sht(2, pre=1, src=[1, 2]), sht(2, pre=1, src=[1, 0]), sht(2, 1, pre=1, src=[2, 1]))]),
-    drive('early_n2', 'aggr', '2 sources of length 2, aggregate destroyed after 0..4 values (never started / parked at a yield)', defines=[shapes(*[sh(2, stop=t, src=[2, 2]) for t in range(5)])]),
-    drive('early_n13', 'aggr', '1 source of length 2 destroyed after 1, 2 values; 3 sources (2,2,2) destroyed after 1 and after 4 values; 2 sources (1,2) after 2 values by call-to-future',
+    drive('early_n2', 'aggr', '2 sources of length 2, aggregate destroyed after 0..4 values (never started / parked at a yield); ORDER: the drain of the dropped aggregate pops while every source is still alive', defines=[shapes(*[sh(2, stop=t, src=[2, 2]) for t in range(5)])]),
+    drive('early_n13', 'aggr', '1 source of length 2 destroyed after 1, 2 values; 3 sources (2,2,2) destroyed after 1 and after 4 values; 2 sources (1,2) after 2 values by call-to-future; ORDER: the drain of the dropped aggregate pops while every source is still alive',
           defines=[shapes(sh(1, stop=1, src=[2]), sh(1, stop=2, src=[2]), sh(3, stop=1, src=[2, 2, 2]), sh(3, stop=4, src=[2, 2, 2]), sh(2, 1, stop=2, src=[1, 2]))], unwind=12),
     drive('arg_n1', 'aggr_arg', 'generator_aggregator<int,int>: 1 source with argument, length 0, 1, 2; next(arg)/value(); one shape by call-to-future', arg='int',
           defines=['AGG_SHAPES {1,0,0,0}, {1,0,1,0}, {1,0,2,0}, {1,1,2,0}']),
@@ -144,12 +146,12 @@ UNITS = HELPERS + UNITS
 
 META = dict(
     level='other',
-    level_text='BOUNDED, not a proof: the statement lives inside the coroutine body of generator_aggregator, which no contract reaches; it is decided by bounded symbolic execution of the really lowered generator_aggregator<int,void> / <int,int> coroutine (clang -O0 lowering, ir2c devirtualised resume) together with the real generator.h / queue.h / future.h / awaiter.h code, for 0..3 scripted SYNCHRONOUS sources of length <= 2 (lists of shapes per unit, see units[].bound; values symbolic in their low 24 bits, the top byte tags the yield they come from), sources may throw a symbolic exception after 0..2 values (one thrower with a consumer that stops at the exception; one, two or three throwers - each with a payload of its own - with a consumer that goes on after every exception), a source may have been stepped once by the consumer before it is handed over, consumer by next()/value() and by call-to-future, aggregate dropped after 0..4 values. Checked per shape: the consumer observes exactly the multiset union (every yielded value exactly once, nothing else), each source\'s values in that source\'s order, the end when and only when all sources have ended (one end indication), a source\'s exception loses no value of any source and is reported - PER SOURCE: the payload of every throwing source reaches the consumer exactly once, nothing else is reported (clause C14-FINDING-two-throwers; OPEN known finding, see level_note) -, after the last value / exception the aggregate is finished, says so and gives the consumer that goes on exactly one end indication (C13 after-exception clause seen through the aggregate; fails on the unchanged generator.h, repaired by specs/C13/fix_after_exception.diff), the first argument initialises every source and each later argument reaches the source whose value was returned last, dropping the aggregate before its first activation / while parked at a yield destroys every activated source\'s locals exactly once, allocations == deallocations (frames + the two vector buffers), the aggregator never parks on queue.pop() with synchronous sources, the callback vector never reallocates. PROVED (contracts, unbounded) only for the helpers: the resume function of GenCallback pushes its own callback onto its own queue exactly once and resumes nobody; the GenCallback constructor wires queue / generator / that function; charge() asks the callback\'s own generator once with the callback as asker (argument installed first); ~generator_aggregator_controller performs exactly count-1 blocking pops of its queue for EVERY count (loop contract), fin() and operator bool keep the active-source counter.',
-    level_note='Not covered: asynchronous sources (a source suspended on another awaitable, completing on another thread or later on this thread), hence also "waits for in-flight asynchronous sources" beyond the controller contract, the single-consumer awaiter slot of cocls::queue, infinite sources, more than 3 sources or more than 2 values per source, value types other than int. OPEN KNOWN FINDING (audit E, D4; marker C14-FINDING-two-throwers, units drive_throw2_a / drive_throw2_b, native replay replay/c14_two_throwers.cpp two_throwers): the statement says "a source\'s exception ... is reported to the consumer" - for every source; the aggregator keeps ONE std::exception_ptr and overwrites it at every caught exception (`exp = std::current_exception();`), so with two or more throwing sources only the exception caught last is reported, the others vanish silently (the former oracle allowed at most one thrower - copied from the code). No small repair: a generator can hand over a single exception, at its end; reporting several needs a design decision (collect / nest them in one exception - which changes the type a consumer catches -, or another reporting channel); keeping the first instead of the last loses just as many. NOT COVERED (audit E, D5): a source that is already FINISHED (exhausted, or ended by an exception) when it is handed to the aggregator - outside the statement\'s scripted source generators, which are fresh (or, unit drive_prestep, parked at a yield). The aggregator mishandles it (auditor\'s native reproducer c14_scenarios exhausted_first / exhausted_last): charge() throws no_more_values_exception outside the try block of the loop; as the first source, ~generator_aggregator_controller then waits for ever for sources that were never charged (hang); as a later source the exception ends the aggregate at once and the values of the other sources are lost. Shapes are sampled, not exhaustive for n = 3. Trusted: models of std::vector (typed pool, no growth; real element constructors/destructors), std::queue<GenCallback*> (FIFO ring), single_item_queue (obligation: stays empty), std::mutex, std::deque of the ready queue, std::atomic<T*> members, typed frame allocation.',
+    level_text='BOUNDED, not a proof: the statement lives inside the coroutine body of generator_aggregator, which no contract reaches; it is decided by bounded symbolic execution of the really lowered generator_aggregator<int,void> / <int,int> coroutine (clang -O0 lowering, ir2c devirtualised resume) together with the real generator.h / queue.h / future.h / awaiter.h code, for 0..3 scripted SYNCHRONOUS sources of length <= 2 (lists of shapes per unit, see units[].bound; values symbolic in their low 24 bits, the top byte tags the yield they come from), sources may throw a symbolic exception after 0..2 values (one thrower with a consumer that stops at the exception; one, two or three throwers - each with a payload of its own - with a consumer that goes on after every exception), a source may have been stepped once by the consumer before it is handed over, consumer by next()/value() and by call-to-future, aggregate dropped after 0..4 values. Checked per shape: the consumer observes exactly the multiset union (every yielded value exactly once, nothing else), each source\'s values in that source\'s order, the end when and only when all sources have ended (one end indication), a source\'s exception loses no value of any source and is reported - PER SOURCE: the payload of every throwing source reaches the consumer exactly once, nothing else is reported (clause C14-FINDING-two-throwers; OPEN known finding, see level_note) -, after the last value / exception the aggregate is finished, says so and gives the consumer that goes on exactly one end indication (C13 after-exception clause seen through the aggregate; fails on the unchanged generator.h, repaired by specs/C13/fix_after_exception.diff), the first argument initialises every source and each later argument reaches the source whose value was returned last, dropping the aggregate before its first activation / while parked at a yield destroys every activated source\'s locals exactly once, allocations == deallocations (frames + the two vector buffers), ORDER of the destruction (clause "destroying the aggregate while parked WAITS for in-flight asynchronous sources", checked in every drive, decisive in drive_early_n2 / drive_early_n13 with >= 2 active sources; added for seeded change C14-1): at every wait of the aggregate for a source - every pop of its completion queue, in particular every pop of the drain in ~generator_aggregator_controller - no source coroutine frame of this aggregate has been destroyed yet (C14-ORDER-wait-before-destroy), and at the moment a source frame is destroyed no source\'s completion is still unconsumed in that queue (C14-ORDER-destroy-after-wait; with synchronous sources an asked source has reported at once, so "in flight" = "completion still queued"), once the aggregate is gone as many completions were taken as were put (source frames are counted by the heap model, every one seen created and destroyed exactly once), the aggregator never parks on queue.pop() with synchronous sources, the callback vector never reallocates. PROVED (contracts, unbounded) only for the helpers: the resume function of GenCallback pushes its own callback onto its own queue exactly once and resumes nobody; the GenCallback constructor wires queue / generator / that function; charge() asks the callback\'s own generator once with the callback as asker (argument installed first); ~generator_aggregator_controller performs exactly count-1 blocking pops of its queue for EVERY count (loop contract), fin() and operator bool keep the active-source counter.',
+    level_note='Not covered: asynchronous sources (a source suspended on another awaitable, completing on another thread or later on this thread), hence also "waits for in-flight asynchronous sources" beyond the controller contract and the ORDER obligations C14-ORDER-* (which pin WHEN the drain runs relative to the destruction of the sources, on synchronous sources whose completions are already queued - not that a blocking wait really blocks until another thread delivers), the single-consumer awaiter slot of cocls::queue, infinite sources, more than 3 sources or more than 2 values per source, value types other than int. OPEN KNOWN FINDING (audit E, D4; marker C14-FINDING-two-throwers, units drive_throw2_a / drive_throw2_b, native replay replay/c14_two_throwers.cpp two_throwers): the statement says "a source\'s exception ... is reported to the consumer" - for every source; the aggregator keeps ONE std::exception_ptr and overwrites it at every caught exception (`exp = std::current_exception();`), so with two or more throwing sources only the exception caught last is reported, the others vanish silently (the former oracle allowed at most one thrower - copied from the code). No small repair: a generator can hand over a single exception, at its end; reporting several needs a design decision (collect / nest them in one exception - which changes the type a consumer catches -, or another reporting channel); keeping the first instead of the last loses just as many. NOT COVERED (audit E, D5): a source that is already FINISHED (exhausted, or ended by an exception) when it is handed to the aggregator - outside the statement\'s scripted source generators, which are fresh (or, unit drive_prestep, parked at a yield). The aggregator mishandles it (auditor\'s native reproducer c14_scenarios exhausted_first / exhausted_last): charge() throws no_more_values_exception outside the try block of the loop; as the first source, ~generator_aggregator_controller then waits for ever for sources that were never charged (hang); as a later source the exception ends the aggregate at once and the values of the other sources are lost. Shapes are sampled, not exhaustive for n = 3. Trusted: models of std::vector (typed pool, no growth; real element constructors/destructors), std::queue<GenCallback*> (FIFO ring), single_item_queue (obligation: stays empty), std::mutex, std::deque of the ready queue, std::atomic<T*> members, typed frame allocation.',
     technique='bounded symbolic execution with CBMC 6.11 (unwinding assertions, every shape run with a concrete control path) of driver scenarios over the C translation of the clang-lowered generator_aggregator coroutine and everything it calls; CBMC code contracts + one loop contract via goto-instrument --dfcc for the helper members',
     trusted_base=['std::vector<generator>, std::vector<GenCallback> = three pointers over a typed static pool, no reallocation (pinned elements: obligation), elements built and destroyed by the real translated functions (lib/model_vec_pool.c)',
-                  'std::queue<GenCallback*> = bounded FIFO ring, accesses under the queue mutex (lib/model_ptrq_ring.c, lib/model_mutex.c); single_item_queue<promise<GenCallback*>> = always empty, parking is a failed obligation (specs/C14/drive_models.h)',
-                  'std::atomic<T*> members read sequentially at member-function level (lib/model_atomic_ptr_api.c); std::deque<coroutine_handle<>> = FIFO ring (lib/model_dq_drive.c); operator new/delete with typed coroutine frames (lib/model_heap_frames.c)',
+                  'std::queue<GenCallback*> = bounded FIFO ring, accesses under the queue mutex (lib/model_ptrq_ring.c, lib/model_mutex.c; pop() restated in specs/C14/drive_models.h with the ORDER obligation); single_item_queue<promise<GenCallback*>> = always empty, parking is a failed obligation (specs/C14/drive_models.h)',
+                  'std::atomic<T*> members read sequentially at member-function level (lib/model_atomic_ptr_api.c); std::deque<coroutine_handle<>> = FIFO ring (lib/model_dq_drive.c); operator new/delete with typed coroutine frames, source frames remembered and counted at allocation / release (lib/model_heap_frames_src.c = lib/model_heap_frames.c + that ghost)',
                   'contract units: queue::push / queue::pop / future::wait / ~future / next_awt::subscribe / suspend_now as recording stubs (specs/C14/a_spec.h)'],
     assumptions=['bounded: <= 3 synchronous sources, <= 2 values each, <= 3 throwing sources, <= 10 consumer steps; single thread; sampled shapes for 3 sources and for several throwers',
                  'observed values are attributed to yields by a tag in the top byte (low 24 bits symbolic)',
